@@ -1,7 +1,7 @@
 """Obligations for C19."""
 from oblib import ob
 
-BOUNDS = {"quick": "", "thorough": ""}
+BOUNDS = {'quick': 'Inside: Flags.Set/Join/Clear/Get/Has for ALL 64-bit presence/value words satisfying the invariant, all argument words and a symbolic key (full width, one inductive step; z3 and cvc5 must agree); v1-then-anything-then-v2 cancellation; Struct.Join + GetOption for all sequences of 1 option (incl. a nested Struct built from 2 options) and of 2 options from {any single boolean flag true/false, Indent, IndentPrefix, ByteLimit, DepthLimit, nil}, against a backwards-scanning last-wins map; option scoping: UnmarshalDecode/MarshalEncode on a long-lived coder with and without call options, inputs with symbolic holes producing errors at any field (incl. string-tagged): coder options identical afterwards, nothing leaked. Outside: longer sequences (thorough: 2 with nesting, 3 without), options not affecting an operation for typed arshal.', 'thorough': 'As quick with sequences of 2 options incl. nested Structs and 3 options without nesting, more scope templates.'}
 ASSUMPTIONS = []
 
 
